@@ -207,6 +207,13 @@ func checkC09(c *Checker) {
 					continue
 				}
 				okK := K == msvD || K == msv1D
+				if !okK {
+					// a kernel that divides in float64 and narrows only the quotient uses the full scale as float64
+					// holds it (exact up to 2^53): the same full scale, one rounding less
+					k64 := numKind{Float: true, Bits: 64, OK: true}
+					m64 := bigToFloat(new(big.Int).Sub(pow2(ds-1), big.NewInt(1)), k64)
+					okK = K == m64 || K == roundTo(m64+1, k64)
+				}
 				if kop == "mul" && !isP2(K) {
 					c.refuted("C09-G4", pi, p, fmt.Sprintf("the amplitude is multiplied by a pre-rounded reciprocal (1/%v) instead of being divided by the full scale: the product is not the correctly rounded quotient, so the matching float-to-fixed conversion does not return the original sample", K),
 						"a positive amplitude whose product with the rounded reciprocal falls one ulp below the quotient (e.g. int8 17)")
